@@ -422,7 +422,7 @@ theorem applyGlyphPatches_split_core (ps1 ps2 : List (PatchInfo × GlyphPatches)
                 have p2' : cffPatch false (font.get TAG_IFT) (some o1) gps2 m = .ok o2 := by
                   unfold cffPatch at p2 ⊢
                   rw [← hift false]; exact p2
-                obtain ⟨at_, os, data, t2, t12, r1, r2, r3, r4, r5, r6⟩ :=
+                obtain ⟨at_, os, data, t2, t12, r1, r2, r3, r4, r5, r6, _, _⟩ :=
                   cffPatch_two_step false (font.get TAG_IFT) b gps1 gps2 m o1 o2 o12
                     (by have := hbase.numGlyphs_lt; omega)
                     (fun a ix t0 hx hy => hbase.cff_ascending false b a ix t0 hb hx (by rw [hmm]; exact hy))
@@ -450,7 +450,7 @@ theorem applyGlyphPatches_split_core (ps1 ps2 : List (PatchInfo × GlyphPatches)
                 have p2' : cffPatch true (font.get TAG_IFT) (some o1) gps2 m = .ok o2 := by
                   unfold cffPatch at p2 ⊢
                   rw [← hift true]; exact p2
-                obtain ⟨at_, os, data, t2, t12, r1, r2, r3, r4, r5, r6⟩ :=
+                obtain ⟨at_, os, data, t2, t12, r1, r2, r3, r4, r5, r6, _, _⟩ :=
                   cffPatch_two_step true (font.get TAG_IFT) b gps1 gps2 m o1 o2 o12
                     (by have := hbase.numGlyphs_lt; omega)
                     (fun a ix t0 hx hy => hbase.cff_ascending true b a ix t0 hb hx (by rw [hmm]; exact hy))
